@@ -17,6 +17,9 @@ TRUSTED = ['harness/gen_tables.py (category table, tokenizer order: regenerated 
            'correspondence harness (props/c19.py, common.py)',
            'modelled, not verified: control flow of category.categorize and tokens.*']
 ASSUMPTIONS = ['CPython str/enumerate semantics', 'the model driver is the compiled form of the verified definitions']
+LEAN_TARGETS = LEAN_TARGETS + ['TexSoupProofs.Properties.TableSpec']
+# entries of the generated tables that the property's statement names (they stop compiling when a table edit drops them)
+THEOREMS = THEOREMS + ['TexSoup.TableSpec.' + n for n in ['untabled_is_other', 'letter_chars', 'structural_chars', 'comment_ignored_invalid_chars', 'end_of_line_chars', 'spacer_chars']]
 
 
 def _cat_chunk(rng_):
@@ -56,6 +59,9 @@ def correspondence(ctx):
     strs = list(gen.exhaustive(gen.CAT_ALPHA, n))
     rg = ctx.rng('tok')
     strs += list(gen.random_strings(rg, gen.CAT_ALPHA + gen.TOKEN_ALPHA, ctx.pick(4000, 60000), 4, 60))
+    # characters beyond the table: one per class CPython's str predicates single out, surrogates (alone, paired, in
+    # both orders), astral characters - next to every kind of context
+    strs += gen.unicode_strings(ctx.rng('tok/uni'), ctx.pick(4000, 40000))
     impl = gen.pmap(_tok_impl, strs)
     model = common.model_batch_parallel(['tok ' + common.enc(s) for s in strs])
     for s, a, b in zip(strs, impl, model):
@@ -120,6 +126,7 @@ def oracle(ctx, seeds, scale):
     rg = ctx.rng('oracle')
     strs += list(gen.random_strings(rg, gen.CAT_ALPHA + gen.TOKEN_ALPHA, ctx.pick(3000, 40000) * scale, 3, 80))
     strs += [chr(i) for i in range(0, 0x3000)] + [chr(rg.randrange(0x3000, sys.maxunicode + 1)) for _ in range(2000)]
+    strs += gen.unicode_strings(ctx.rng('oracle/uni'), ctx.pick(4000, 40000) * scale)
     res = gen.pmap(_oracle_one, strs)
     for s, x in zip(strs, res):
         r.count(s, len(s) > 1)
